@@ -90,9 +90,12 @@ _WORK = None
 
 
 def work():
+    """One directory per check run: created in the main process, inherited by the forked workers."""
     global _WORK
     if _WORK is None:
-        _WORK = scratch_dir("c19")
+        _WORK = os.environ.get("C19_WORKDIR") or scratch_dir("c19")
+        os.environ["C19_WORKDIR"] = _WORK
+    os.makedirs(_WORK, exist_ok=True)
     return _WORK
 
 
@@ -261,6 +264,7 @@ def replay(case) -> int:
 def run(tier: str, seed: int) -> int:
     ensure_repo_on_path()
     v = Verdict("C19", tier, seed)
+    work()                # before any worker is forked
     rng = random.Random(seed)
     try:
         for mode in ("parse", "spec", "simulate", "fit", "drt"):
@@ -287,6 +291,7 @@ def run(tier: str, seed: int) -> int:
     finally:
         if _WORK:
             shutil.rmtree(_WORK, ignore_errors=True)
+        os.environ.pop("C19_WORKDIR", None)
     v.nontrivial = v.replayed
     v.evaluations = v.replayed
     v.extra["rule"] = ("configurations = states of specs/Cli.tla per command; each is run through pyimpspec.cli.main() in-process; `parse` output is "
